@@ -9,7 +9,7 @@ package macat
 //@   before call:Write#1 assert arg0 == msg.Body
 //@   before call:WriteByte#1 assert arg0 == msg.Body[i] && isprint(msg.Body[i])
 //@   before call:WriteByte#1 assert 32 <= msg.Body[i] && msg.Body[i] <= 126
-//@   before call:WriteByte#2 assert arg0 == 46 && !isprint(msg.Body[i])
+//@   before call:WriteByte#2 assert arg0 == 46 && !(32 <= msg.Body[i] && msg.Body[i] <= 126)
 //@   before call:WriteString#1 assert arg0 == "\n"
 //@   before call:WriteString#2 assert arg0 == "\\n" && msg.Body[i] == 10
 //@   before call:WriteString#3 assert arg0 == "\\r" && msg.Body[i] == 13
